@@ -173,11 +173,18 @@ func (c *MemoryCache[MetadataT]) cacheInternal(key CacheKey, data io.Reader, exp
 		return nil, ErrCacheMemoryExceeded
 	}
 
+	// A body that is larger than the whole cache may be can never be kept: stop reading at that
+	// point instead of buffering whatever the source delivers (a body without end would otherwise
+	// be read until the process runs out of memory).
 	buf := bytes.NewBuffer(make([]byte, 0, INIT_BUFFER_SIZE))
-	count, err := buf.ReadFrom(data)
+	count, err := buf.ReadFrom(io.LimitReader(data, limit+1))
 	if err != nil {
 		metrics.Global.Cache.CacheErrors.Increment()
 		return nil, err
+	}
+	if count > limit {
+		metrics.Global.Cache.CacheErrors.Increment()
+		return nil, ErrCacheMemoryExceeded
 	}
 
 	dataBytes := buf.Bytes()
